@@ -1,7 +1,91 @@
 import CogentModel.Json
+import CogentModel.Model.Distance
+import CogentModel.Model.NJ
+import CogentModel.Model.UPGMA
 open CogentModel
 
-def handle (cmd : String) (_j : J) : Except String J :=
-  throw s!"unknown command {cmd}"
+namespace C15Driver
+open CogentModel.Distance
+
+def r (q : Rat) : J := J.ofRat q
+
+def statJ : Stat → J
+  | .invalid => J.obj [("k", J.str "invalid")]
+  | .nan => J.obj [("k", J.str "nan")]
+  | .zero => J.obj [("k", J.str "zero")]
+  | .absent => J.obj [("k", J.str "absent")]
+  | .hamming t p d => J.obj [("k", J.str "hamming"), ("total", r t), ("p", r p), ("dist", r d)]
+  | .jc69 t p f => J.obj [("k", J.str "jc69"), ("total", r t), ("p", r p), ("factor", r f)]
+  | .tn93 t p c1 c2 c3 t1 t2 t3 =>
+    J.obj [("k", J.str "tn93"), ("total", r t), ("p", r p), ("c", J.arr [r c1, r c2, r c3]), ("t", J.arr [r t1, r t2, r t3])]
+  | .paralinear t p d pr => J.obj [("k", J.str "paralinear"), ("total", r t), ("p", r p), ("det", r d), ("prod", r pr)]
+  | .logdetTK t p c d pr =>
+    J.obj [("k", J.str "logdetTK"), ("total", r t), ("p", r p), ("coeff", r c), ("det", r d), ("prod", r pr)]
+  | .logdet t p d => J.obj [("k", J.str "logdet"), ("total", r t), ("p", r p), ("det", r d)]
+
+def parseCalc (s : String) : Except String Calc :=
+  match s with
+  | "hamming" => pure .hamming
+  | "pdist" => pure .pdist
+  | "jc69" => pure .jc69
+  | "tn93" => pure .tn93
+  | "paralinear" => pure .paralinear
+  | "logdet" => pure .logdet
+  | "logdet_notk" => pure .logdetNoTK
+  | _ => throw s!"bad calc {s}"
+
+def parseSeqs (j : J) : Except String (List (List Int)) := j.toListOf (J.toListOf J.toInt)
+
+def parseMat (j : J) : Except String (List (List Rat)) := j.toListOf (J.toListOf J.toRat)
+
+open CogentModel.NJ in
+partial def treeJ : T → J
+  | .tip x => J.obj [("t", J.num x)]
+  | .bin l1 t1 l2 t2 => J.obj [("c", J.arr [J.arr [r l1, treeJ t1], J.arr [r l2, treeJ t2]])]
+
+open CogentModel.UPGMA in
+partial def utreeJ : U → J
+  | .tip x => J.obj [("t", J.num x)]
+  | .node c1 l1 c2 l2 => J.obj [("c", J.arr [J.arr [r l1, utreeJ c1], J.arr [r l2, utreeJ c2]])]
+
+end C15Driver
+open C15Driver CogentModel.Distance
+
+def handle (cmd : String) (j : J) : Except String J :=
+  match cmd with
+  | "dist" => do
+    let c ← parseCalc (← (← j.get "calc").toStr)
+    let seqs ← parseSeqs (← j.get "seqs")
+    let st := run c seqs
+    let d := expand seqs.length st
+    let n := seqs.length
+    let mat := (List.range n).map fun a => (List.range n).map fun b => cell d a b
+    pure (J.obj [("matrix", J.arr (mat.map fun row => J.arr (row.map statJ))),
+                 ("raised", J.bool st.raised),
+                 ("dupes", J.arr (st.dupes.map J.ofNat)),
+                 ("duped", J.arr (st.duped.map fun p => J.arr [J.ofNat p.1, J.ofNat p.2]))])
+  | "pair" => do
+    let c ← parseCalc (← (← j.get "calc").toStr)
+    let s1 ← (← j.get "s1").toListOf J.toInt
+    let s2 ← (← j.get "s2").toListOf J.toInt
+    let m := countsOf s1 s2
+    pure (J.obj [("stat", statJ (stat c m)), ("dup", J.bool (!hasOffDiag m)),
+                 ("counts", J.arr ((List.range 4).map fun a => J.arr ((List.range 4).map fun b => r (m a b))))])
+  | "nj" => do
+    let n ← (← j.get "n").toNat
+    let d ← parseMat (← j.get "d")
+    if n < 2 then throw "n < 2"
+    let root := NJ.nj n d
+    let joins := if n = 2 then [] else NJ.njTrace NJ.pickPair n (NJ.star n d)
+    pure (J.obj [("root", J.arr (root.map fun p => J.arr [r p.1, treeJ p.2])),
+                 ("joins", J.arr (joins.map fun p => J.arr [J.ofNat p.1, J.ofNat p.2]))])
+  | "upgma" => do
+    let n ← (← j.get "n").toNat
+    let d ← parseMat (← j.get "d")
+    let big ← (← j.get "big").toRat
+    match UPGMA.upgma n d big with
+    | some t => pure (J.obj [("tree", utreeJ t)])
+    | none => pure (J.obj [("tree", J.null)])
+  | _ => throw s!"unknown command {cmd}"
 
 def main : IO Unit := driverLoop handle
